@@ -67,6 +67,9 @@ for f in files:
             tried.add(tag)
             sys.modules[__name__]._tried = tried
             text = '\n'.join(lines[i:j])
+            if '// [' in text:
+                print('KEEP (carries a labelled obligation) %s %s %s' % (f, key, l), flush=True)
+                continue
             if 'let ghost' in text or 'let tracked' in text:
                 print('KEEP (defines ghost state) %s %s %s' % (f, key, l), flush=True)
                 continue
